@@ -255,6 +255,16 @@ def one_schedule(ctx, prop, base, cmds, point, mode, trace, prog, post_oracle=No
             # (A command that really blocks on the lock is caught in "complete" mode, where B is run untraced with a 10 s limit.)
             ctx.count(1, key=("skipped: resumed process did not finish, killed by the harness",)); return "skipped"
         ctx.count(1, key=(label[0], label[1], atA, mode))
+        # T3: each process's calls on the lock file follow the automaton of ErgoModel.LockFile (whose runs C02_one_process_inside_whatever_the_lock_file is about)
+        for who, res, stat_traced in (("A", ra, bool(calls) and "stat" in calls), ("B", rb, False)):
+            toks = strace.lock_calls(res.get("steps") or [])
+            if not toks or (toks[0] == "open-" and not stat_traced):
+                continue
+            a = ctx.model.ask({"op": "lockprog", "calls": toks})
+            ctx.count(1, key=("T3-lock automaton", " ".join(toks))); ctx.tie_tally("T3 lock automaton (LockFile.acquireOK)", " ".join(toks))
+            if not a.get("ok"):
+                ctx.tie_broken("T3 lock acquisition (two-process schedule)", {"process": who, "argv": argvA if who == "A" else argvB, "lock_calls": toks,
+                               "automaton_ends_in": a.get("end"), "expected": "a path of LockFile.next ending outside the section"})
         if judge(ctx, prop, base, c, [(reqA, agA, envA), (reqB, agB, envB)], [ra, rb], trace, step, post_oracle):
             return "violation"
         return "ok"
